@@ -76,6 +76,9 @@ type Node struct {
 	FailEOF bool
 	// interrupts
 	RerunN int // number of attempts that answer InterruptAndRerun
+	// Twin: nodes with the same Twin name are built from ONE Lambda value (added to the graph
+	// twice, with different node options); their executions are recorded under the twin name
+	Twin string
 	// NodeKey: chain branch alternatives: the node is added with an explicit node key
 	NodeKey bool
 	// Interim: the node's output carries a progress counter "z:<key>" whose final value is 0; in
@@ -841,6 +844,9 @@ func (p *Plan) Render() string {
 		if n.InKey != "" {
 			sb.WriteString("<" + n.InKey)
 		}
+		if n.Twin != "" {
+			sb.WriteString(" =" + n.Twin)
+		}
 		if n.AnyOut {
 			sb.WriteString(" :any")
 		}
@@ -1104,4 +1110,72 @@ func maybeInputKeys(t *kernel.Tape, p *Plan) {
 	if t.PlanBool(25) {
 		decorateInputKeys(t, p, 60)
 	}
+}
+
+// decorateTwins: two lambda nodes of a (non-workflow) plan are built from one Lambda value;
+// each is added under its own key and output key, with its own handlers and input key.
+func decorateTwins(t *kernel.Tape, p *Plan) bool {
+	if p.Mode == ModeWorkflow {
+		return false
+	}
+	var ls []*Node
+	for _, n := range p.Nodes {
+		if n.Kind == KLambda && n.FailAt < 0 && n.RerunN == 0 && !n.AnyOut && !n.Interim {
+			ls = append(ls, n)
+		}
+	}
+	if len(ls) < 2 {
+		return false
+	}
+	i := t.Plan(len(ls))
+	j := t.Plan(len(ls) - 1)
+	if j >= i {
+		j++
+	}
+	a, b := ls[i], ls[j]
+	name := p.Prefix + "tw"
+	a.Twin, b.Twin = name, name
+	// both put out the key of the shared function: they get output keys of their own unless
+	// their outputs can never meet in one map
+	meet := false
+	ca, cb := p.consumers(a.Key, 0), p.consumers(b.Key, 0)
+	for x := range ca {
+		if cb[x] {
+			meet = true
+		}
+	}
+	if meet || ca[a.Key] || ca[b.Key] || cb[a.Key] || cb[b.Key] {
+		a.OutKey, b.OutKey = a.Key, b.Key
+	}
+	b.Native, b.Cut, b.Pipe, b.Early, b.Yields, b.UseState = a.Native, a.Cut, a.Pipe, a.Early, a.Yields, a.UseState
+	return true
+}
+
+// consumers: the nodes (and "end") that receive the output map of node key, directly or through
+// pass-through nodes and nested graphs (which may hand the map on unchanged).
+func (p *Plan) consumers(key string, depth int) map[string]bool {
+	out := map[string]bool{}
+	if depth > len(p.Nodes) {
+		return out
+	}
+	var targets []string
+	for _, e := range p.Edges {
+		if e.From == key {
+			targets = append(targets, e.To)
+		}
+	}
+	for _, b := range p.Branches {
+		if b.From == key && b.Data {
+			targets = append(targets, b.Targets...)
+		}
+	}
+	for _, x := range targets {
+		out[x] = true
+		if nd := p.node(x); nd != nil && (nd.Kind == KPass || nd.Kind == KSub) {
+			for y := range p.consumers(x, depth+1) {
+				out[y] = true
+			}
+		}
+	}
+	return out
 }
